@@ -40,8 +40,9 @@ def NoInterfaceWidening (P : Prog) : Prop := hasWidening P = false
 /-- the successor relation of the worklist -/
 def Callee (T : Tables) (P : Prog) (f g : Nat) : Prop := g ∈ findCallees T P f
 
-/-- the operand tables of the pinned commit -/
-def pinnedInstrOps : List (String × String) :=
+/-- the instruction operand table BEFORE the repair of F8 (repository commit 3c101cd): the arguments of
+`Defer` and `Go` are missing.  Kept as a literal for the negation witnesses. -/
+def oldInstrOps : List (String × String) :=
   [("BinOp", "X"), ("BinOp", "Y"), ("Call", "Args"), ("Call", "Value"), ("ChangeInterface", "X"), ("ChangeType", "X"),
    ("Convert", "X"), ("DebugRef", "X"), ("Defer", "Value"), ("Extract", "Tuple"), ("Field", "X"), ("FieldAddr", "X"),
    ("Go", "Value"), ("If", "Cond"), ("Index", "Index"), ("Index", "X"), ("IndexAddr", "Index"), ("IndexAddr", "X"),
@@ -51,6 +52,9 @@ def pinnedInstrOps : List (String × String) :=
    ("Return", "Results"), ("Select", "Chan"), ("Select", "Send"), ("Send", "Chan"), ("Send", "X"), ("Slice", "X"),
    ("Slice", "Low"), ("Slice", "High"), ("Slice", "Max"), ("Store", "Addr"), ("Store", "Val"), ("TypeAssert", "X"),
    ("UnOp", "X")]
+
+/-- the operand table of the pinned code (after the repair): the old one plus the arguments of Defer and Go -/
+def pinnedInstrOps : List (String × String) := ("Defer", "Args") :: ("Go", "Args") :: oldInstrOps
 
 def pinnedValueOps : List (String × String) :=
   [("BinOp", "X"), ("BinOp", "Y"), ("Call", "Args"), ("Call", "Value"), ("ChangeInterface", "X"), ("ChangeType", "X"),
@@ -65,6 +69,9 @@ def pinnedValueOps : List (String × String) :=
 def pinnedTables : Tables :=
   { instrOps := pinnedInstrOps, valueOps := pinnedValueOps, goFn := true, goClosure := true, mkIface := true,
     valueActionFn := true, instrLoop := true }
+
+/-- the tables before the repair of F8 -/
+def oldTables : Tables := { pinnedTables with instrOps := oldInstrOps }
 
 /-- `T` visits / handles everything `S` does -/
 def Tables.covers (S T : Tables) : Bool :=
